@@ -110,7 +110,7 @@ func allowInit(path string) bool {
 	case "errors", "io", "context", "time", "strconv", "bufio", "bytes", "strings", "math", "sync",
 		"container/list", "sort", "slices", "net/url", "unicode/utf8", "maps", "iter", "cmp",
 		"encoding/binary", "encoding/hex", "sync/atomic", "internal/oserror", "math/bits", "io/fs", "path",
-		"internal/sync", "internal/bytealg", "internal/stringslite", "internal/itoa", "hash", "hash/crc32":
+		"internal/sync", "net/netip", "internal/bytealg", "internal/stringslite", "internal/itoa", "hash", "hash/crc32":
 		return true
 	}
 	return false
